@@ -16,6 +16,8 @@ func init() {
 	Registry["C10"] = func(c *Ctx) {
 		c.R.Rule = "scenario = (2 or 3 virtual processes, pre-existing lock file in {none, empty, garbage, dead pid, live foreign pid that later dies}, optionally one crash); each process runs the REAL WorkspaceLocker.Lock / critical section / Unlock on one real lock file; every os call of workspace_locker.go is a scheduling point followed by the real system call; all choice sequences with <= d deviations (a crash of a process before any of its file-system steps is a deviation). Non-trivial = at least one process acquired the lock; distinct (scenario, outcome) pairs are counted. Process half (REAL binary, one workspace): build A holds the workspace (its last command waits for a marker), then {nothing, A runs with GOGC=1, `grog clean`, `grog clean --expunge`, A is killed with SIGKILL while its command's shell lives on}, then build B starts: B's command never starts while A's is running (a violation only when the overlap is observed in the trace), B acquires the lock once A released it / is dead."
 		c.R.Assume("pids and process liveness come from a virtual process table; the file system is real (tmpfs)", "PID reuse is not modelled", "the 1 s retry timer runs on the bubble's fake clock; 'never acquires' = still waiting after 6 clock advances with nothing else runnable")
+		// process half first (real grog processes on one workspace): it does not depend on the instrumented build
+		c10Processes(c)
 		ov := schedOverlay(c, "sched-c10", []string{"internal/locking/workspace_locker.go"}, []string{"vlockos", "c10"})
 		if ov == nil {
 			return
@@ -31,7 +33,5 @@ func init() {
 		}
 		env := map[string]string{"VERIF_TIER": c.Tier, "VERIF_BOUND": fmt.Sprint(bound), "VERIF_BUDGET_S": fmt.Sprint(budget), "GOMAXPROCS": "1"}
 		vc.RunHarnessShards(c.R, vc.HarnessRun{Bin: bin, Env: env, Tag: "c10"}, 16, 16)
-		// process half: real grog processes on one workspace
-		c10Processes(c)
 	}
 }
